@@ -9,11 +9,16 @@ use sas_lexer::{LexResult, TokenType};
 /// Is `a` a closed prefix? Its last token before EOF must be a consumed `;`, a predicted
 /// comment ending in `;` or a macro comment terminated by its `;`, and the end-of-input
 /// snapshot must be the initial configuration.
-pub fn is_closed(src: &str, ex: &Exec) -> bool {
+pub fn is_closed(src: &str, ex: &Exec, by_construction: bool) -> bool {
     let Some(res) = ex.result() else { return false };
-    let Some(eoi) = &ex.report.end_of_input else { return false };
-    if !eoi.is_initial() {
-        return false;
+    // A generated well-formed prefix cut at a statement boundary is closed by construction: the
+    // lexer's own snapshot is not consulted, so that state leaking past the boundary shows up as
+    // a composition failure instead of silently disqualifying the prefix.
+    if !by_construction {
+        let Some(eoi) = &ex.report.end_of_input else { return false };
+        if !eoi.is_initial() {
+            return false;
+        }
     }
     if !res.errors.is_empty() {
         // an error raised at end of input (unterminated comment, string, ...) means the tail was
